@@ -282,7 +282,7 @@ func joinLines(lines [][]byte) []byte {
 func runC04(cfg *config) *Report {
 	rep := newReport("C04", cfg.tier, cfg.seed)
 	r := newRng(cfg.seed + 4000)
-	rep.Rule = "valid generated files (ASCII, one record per line, framed by newlines and - the same faulted sequences - by length prefixes) x EVERY single structural fault: delete each record, duplicate each, cut at each boundary, insert a valid record of each of the 21 kinds at each position, move each record to each other position (quick tier: all deletes/duplicates/cuts, 1/3 of inserts, 1/6 of moves); real Reader verdict and census of the returned File compared with the X9 nesting automaton's attribution of the input records and with the Lean reader model; non-trivial = the fault changes the record sequence; distinct by line sequence"
+	rep.Rule = "valid generated files (ASCII, one record per line, framed by newlines and - the same faulted sequences - by length prefixes) x EVERY single structural fault: delete each record, duplicate each, cut at each boundary, insert a valid record of each of the 21 kinds (and a well-formed User Record, type 68) at each position, move each record to each other position (quick tier: all deletes/duplicates/cuts, 1/3 of inserts, 1/6 of moves); real Reader verdict and census of the returned File compared with the X9 nesting automaton's attribution of the input records and with the Lean reader model; non-trivial = the fault changes the record sequence; distinct by line sequence"
 	nFiles := 3
 	if cfg.tier == "thorough" {
 		nFiles = 25
@@ -311,6 +311,13 @@ func runC04(cfg *config) *Report {
 		if len(lines) <= 45 || cfg.tier == "thorough" {
 			files = append(files, lines)
 		}
+	}
+	// a record type of the standard that the file model has no member for: a well-formed User Record (68). The only
+	// answers that lose nothing are a refusal or a file that holds it.
+	{
+		userData := "clearing arrangement reference 0042"
+		pool["68"] = []byte("68" + "3" + "230918276" + fmt.Sprintf("%-20s", "ZZ1") + "002" + "001" + fmt.Sprintf("%07d", len(userData)) + userData)
+		kinds = append(kinds, "68")
 	}
 	sort.Strings(kinds)
 	files = files[:nFiles]
